@@ -208,7 +208,7 @@ def item(draw, lang):
         if lang in ("ts", "js"):
             it["export"] = draw(st.booleans())
         if lang == "rs":
-            it["static"] = draw(st.booleans())
+            it["static"] = draw(st.integers(0, 5))
         return it
     if k == "global":
         it = {"k": "global", "lit": draw(literal(lang, "any"))}
